@@ -709,8 +709,10 @@ class Image(Plane):
                          pixelscale=pixelscale, ptype=lentil.image,
                          **kwargs)
         
-    def fit_tilt(self, *args, **kwargs):
-        return self
+    def fit_tilt(self, inplace=False):
+        # an image plane has no tilt to fit, but as for any plane the caller
+        # gets a copy to work on unless it asks for the plane itself
+        return self if inplace else self.copy()
 
     def multiply(self, wavefront):
         wavefront = super().multiply(wavefront)
